@@ -101,7 +101,7 @@ theorem enum_refines {s v p m} {ds : List Nat} {ps : List Shape} {idx : Nat} {pl
       have he := (initP_all (.enum ds ps) (.variant j .default) hj.2).1
       obtain ⟨m', hm', F', ho, hr⟩ := setDataInner_refines F c _ g' hroom
       exact ⟨m', by rw [he, hm', unitRes_ok], F', ho, hr⟩
-    · simp only [hj, if_false]; exact ⟨m, rfl, fun _ => rfl⟩
+    · simp only [hj, if_false]; first | exact Or.inr rfl | exact Or.inr trivial | simp [composite]
   | _ => unfold Refines; simp [Spec.applyNode, applyAt]
 
 
